@@ -2,7 +2,7 @@
 From Coq Require Import ZArith List Bool Reals Floats.SpecFloat.
 From Flocq Require Import Core.Zaux Core.Raux Core.Defs Core.Generic_fmt Core.FLT Core.Round_NE IEEE754.BinarySingleNaN.
 From Rscel Require Import Base.Prims Base.F64 Base.Text Model.Value Model.Lexer Model.Ast Model.Parser.
-From Rscel Require Import Proofs.Literals Proofs.FloatLit Proofs.StrLit Proofs.Conv Proofs.LexInt Proofs.LexStr Proofs.LitProgram Proofs.LexHex Proofs.LexFloat.
+From Rscel Require Import Proofs.Literals Proofs.FloatLit Proofs.StrLit Proofs.Conv Proofs.LexInt Proofs.LexStr Proofs.LitProgram Proofs.LexHex Proofs.LexFloat Proofs.LexFloatExp.
 From Rscel Require Import Model.Compile Model.Interp.
 Import ListNotations.
 Open Scope Z_scope.
@@ -193,3 +193,16 @@ Theorem C13_float_source_evaluates : forall d0 ip fp f g E d lg,
                 (ROk (VFloat (dec_to_f64 (dec_value ((d0 :: ip) ++ fp) 0) (- Z.of_nat (length fp)))), lg).
 Proof. exact float_source_evaluates. Qed.
 Print Assumptions C13_float_source_evaluates.
+
+(** ... and with an exponent,  I.F e [+|-] X  (the bound on X is the model's cap on absurd exponents) *)
+Theorem C13_float_exp_source_evaluates : forall d0 ip fp e sg ex f g E d lg,
+  Forall (fun c => is_digit c = true) (d0 :: ip) -> Forall (fun c => is_digit c = true) fp ->
+  Forall (fun c => is_digit c = true) ex -> ex <> [] ->
+  (e = 101 \/ e = 69) -> (sg = [] \/ sg = [43] \/ sg = [45]) ->
+  dec_value ex 0 <= Z.of_nat (length (d0 :: ip)) + Z.of_nat (length fp) + 2000 -> (d < 32)%nat ->
+  exists p k, compile_source (S f) (d0 :: ip ++ 46 :: fp ++ e :: sg ++ ex) = COk p k /\
+              run (S (S (S g))) E (pr_code p) true d lg =
+                (ROk (VFloat (dec_to_f64 (dec_value ((d0 :: ip) ++ fp) 0)
+                               ((match sg with [45] => - dec_value ex 0 | _ => dec_value ex 0 end) - Z.of_nat (length fp)))), lg).
+Proof. exact float_exp_source_evaluates. Qed.
+Print Assumptions C13_float_exp_source_evaluates.
